@@ -31,11 +31,11 @@ def _weight_array(wid: int, shape) -> np.ndarray:
     return np.random.default_rng(10_000 + wid).uniform(0.25, 1.75, size=tuple(shape))
 
 
-def _base_field(fid: int, base, tail, positive: bool) -> np.ndarray:
+def _base_field(fid: int, base, tail, positive: bool, scale: float = 1.0) -> np.ndarray:
     g = np.random.default_rng(20_000 + fid)
     lo = 0.5 if positive else -1.0
-    # multiples of 1/64: exactly representable in float32 too
-    return np.round(g.uniform(lo, 2.0, size=tuple(base) + tuple(tail)) * 64) / 64
+    # multiples of 1/64: exactly representable in float32 too; 'scale' is a power of two times that
+    return scale * np.round(g.uniform(lo, 2.0, size=tuple(base) + tuple(tail)) * 64) / 64
 
 
 def _repeat(field: np.ndarray, mult) -> np.ndarray:
@@ -165,7 +165,7 @@ def ref_integral(spec, field_base: np.ndarray) -> np.ndarray:
 def make_data(spec, op, fid, positive=False, mult=None, form=None):
     mult = mult if mult is not None else op["m"]
     payload = op.get("payload", {"kind": "scalar"})
-    fb = _base_field(fid, spec["base"], _tail(payload), positive)
+    fb = _base_field(fid, spec["base"], _tail(payload), positive, float(op.get("scale", 1.0)))
     arr = _repeat(fb, mult).astype(op.get("dtype", "float64"))
     form = form or op.get("form", "array")
     if form == "array":
@@ -260,7 +260,8 @@ class C03Engine(Engine):
             r = [min(x, 3) for x in r]
         cls = rng.choice(CLASSES)
         spec = {"cls": cls, "space_dim": d, "base": base, "r": r,
-                "voxel_size": [rng.choice([0.125, 0.25, 0.5, 1.0, 2.0, 0.1, 0.3, 1.7]) for _ in range(d)],
+                "voxel_size": [rng.choice([0.125, 0.25, 0.5, 1.0, 2.0, 0.1, 0.3, 1.7]) for _ in range(d)]
+                if rng.random() < 0.8 else [rng.choice([5e-4, 1e-3, 2e-3, 1e3]) for _ in range(d)],
                 "size_by": rng.choice(["dimensions", "voxel_size"])}
 
         def w():
@@ -313,6 +314,8 @@ class C03Engine(Engine):
         kind = rng.choices(["integrate", "lin", "normalize"], [7, 2, 2])[0]
         want = rng.choices(["native", "coarser", "finer", "mixed", "nonint"], [4, 4, 3, 1, 1])[0]
         op = {"op": kind, "obj": oid, "m": self._gen_mult(rng, spec, want)}
+        if rng.random() < 0.25:
+            op["scale"] = rng.choice([2.0 ** -20, 2.0 ** -10, 2.0 ** 10])  # very small / large data magnitudes
         if kind == "integrate":
             op.update(field=rng.randint(0, 9999), payload=self._gen_payload(rng),
                       form=rng.choice(["array", "image"]), dtype=rng.choice(["float64", "float64", "float32"]))
@@ -573,6 +576,10 @@ class C03Engine(Engine):
         # simplify ops
         for c, prog in case["clients"].items():
             for j, op in enumerate(prog):
+                if "scale" in op:
+                    k = copy.deepcopy(case)
+                    k["clients"][c][j].pop("scale")
+                    yield k
                 for field, val in (("payload", {"kind": "scalar"}), ("form", "array"), ("dtype", "float64"),
                                    ("field", 0), ("x", 0), ("y", 1), ("img", 0), ("ref", 1)):
                     if field in op and op[field] != val:
